@@ -95,6 +95,10 @@ Clauses(e) ==
     LET z == e.z IN
     CASE e.k = "end" ->
             (IF e.s = "hang" THEN << <<l, "C18a_hang", info[z].op, info[z].xq, "">> >>
+             \* "always ends, with the controller's schedule ... or an error": a CancelledError reaching a caller who
+             \* did not cancel (the harness marks its own cancellations q = "own") is neither - another transfer's
+             \* abandonment took this one down ("other zones ... proceed normally")
+             ELSE IF e.s = "cancel" /\ e.q # "own" THEN << <<l, "C18c_cancelled_by_another_transfer", info[z].op, info[z].xq, "">> >>
              ELSE IF e.s # "ok" THEN <<>>
              ELSE IF info[z].op = "get"
                   THEN IF e.b \in acc[z] THEN <<>>
